@@ -355,8 +355,19 @@ func c04Gen(rt *rapid.T) wProg {
 			op.A = "data del"
 			op.N, op.M = 0, 0
 			p.Ops = append(p.Ops, op)
-		case x < 74:
+		case x < 72:
 			pub(s, ref)
+		case x < 74:
+			// the store fails when asked to delete; the next delete is accepted
+			if reader[p.Sess[s]] {
+				s = writerSess()
+				ref = topicFor(s)
+			}
+			last := cnt[topicKey(ref)]
+			p.Ops = append(p.Ops, wOp{K: "fault", N: 1, A: "MessageDeleteList"},
+				wOp{K: "del", S: s, T: ref, A: "msg", F: c04Pct(rt, 50), R: c04Ranges(rt, last)},
+				wOp{K: "del", S: s, T: ref, A: "msg", F: c04Pct(rt, 50), R: c04Ranges(rt, last)},
+				wOp{K: "get", S: s, T: ref, A: "data del"})
 		case x < 80:
 			if hasP2P && c04Pct(rt, 30) {
 				if c04Pct(rt, 50) {
@@ -771,6 +782,11 @@ func (o *c04Obs) judgeDel(w *wWorld, st *wStep) *kit.Viol {
 	wantHard := st.Op.F
 	if !acked {
 		o.refused++
+		if st.Fired {
+			// the store failed: refusing is right, and the refused request must leave no trace (storeCheck)
+			o.classes["delete-failed-in-store"] = true
+			return nil
+		}
 		// must it have been accepted?
 		if attached && !at.Chan && inDomain && st.code() >= 400 && ((wantHard && canD) || canR) {
 			return o.rep(kit.V("valid-delete-refused", "user %d (mode %v, attached) sent %s with every entry inside 1..%d and was answered %d", st.User, mode, st.Req, tp.last, st.code()))
